@@ -51,6 +51,7 @@ OF THIS SOFTWARE, EVEN IF ADVISED OF THE POSSIBILITY OF SUCH DAMAGE.
 #include "argon2_core.h"
 #include "jit_compiler.hpp"
 #include "intrin_portable.h"
+#include "verif_hooks.h"
 
 static_assert(RANDOMX_ARGON_MEMORY % (RANDOMX_ARGON_LANES * ARGON2_SYNC_POINTS) == 0, "RANDOMX_ARGON_MEMORY - invalid value");
 static_assert(ARGON2_BLOCK_SIZE == randomx::ArgonBlockSize, "Unpexpected value of ARGON2_BLOCK_SIZE");
@@ -123,11 +124,13 @@ namespace randomx {
 		randomx_argon2_initialize(&instance, &context);
 
 		randomx_argon2_fill_memory_blocks(&instance);
+		RANDOMX_VERIF_YIELD(RANDOMX_VERIF_SITE_CACHE_ARGON);
 
 		cache->reciprocalCache.clear();
 		randomx::Blake2Generator gen(key, keySize);
 		for (int i = 0; i < RANDOMX_CACHE_ACCESSES; ++i) {
 			randomx::generateSuperscalar(cache->programs[i], gen);
+			RANDOMX_VERIF_YIELD(RANDOMX_VERIF_SITE_CACHE_SSH);
 			for (unsigned j = 0; j < cache->programs[i].getSize(); ++j) {
 				auto& instr = cache->programs[i](j);
 				if ((SuperscalarInstructionType)instr.opcode == SuperscalarInstructionType::IMUL_RCP) {
@@ -187,6 +190,7 @@ namespace randomx {
 		}
 
 		memcpy(out, &rl, CacheLineSize);
+		RANDOMX_VERIF_YIELD(RANDOMX_VERIF_SITE_DATASET_ITEM);
 	}
 
 	void initDataset(randomx_cache* cache, uint8_t* dataset, uint32_t startItem, uint32_t endItem) {
